@@ -181,3 +181,38 @@ pub fn fixed_position_hits<V: Copy + Send + Sync>(sent: &[&[u8]], keys: &std::co
     });
     parts.into_iter().flatten().collect()
 }
+
+
+/// Freshness: within one message no high-entropy 16-byte window (at any offset) may occur twice.
+/// Values that blind secrets (base-OT points, OT matrix columns, MACs, ciphertext rows) are fresh per
+/// element; a repetition inside one message means that a blinding value was reused. Returns the first
+/// repetition found as (message label, occurrence, sender, receiver, offset a, offset b).
+pub fn repeat_scan(net: &crate::sim::Net, max_len: usize) -> (usize, Option<serde_json::Value>) {
+    let mut windows = 0usize;
+    for m in &net.msgs {
+        let b = &m.sent;
+        if b.len() < 32 || b.len() > max_len {
+            continue;
+        }
+        let mut seen: std::collections::HashMap<[u8; 16], usize> = std::collections::HashMap::with_capacity(b.len());
+        for off in 0..=(b.len() - 16) {
+            let w: [u8; 16] = b[off..off + 16].try_into().unwrap();
+            let mut mask = [0u64; 4];
+            for x in w {
+                mask[(x >> 6) as usize] |= 1u64 << (x & 63);
+            }
+            let distinct: u32 = mask.iter().map(|m| m.count_ones()).sum();
+            if distinct < 13 {
+                continue;
+            }
+            windows += 1;
+            if let Some(prev) = seen.insert(w, off) {
+                if off - prev >= 16 {
+                    return (windows, Some(serde_json::json!({"label": net.label(m.label), "occurrence": m.k, "from": m.from, "to": m.to, "offset_a": prev, "offset_b": off, "message_len": b.len()})));
+                }
+                seen.insert(w, prev);
+            }
+        }
+    }
+    (windows, None)
+}
